@@ -120,12 +120,12 @@ func runC04(c *Ctx) {
 		c.Check("C04.F", key, p, posOf(hits), ok, "exactly one call site of "+what+", outside any loop", fmt.Sprintf("%s: %d call site(s) of %s (must be exactly one, not in a loop): one worker can forward the request more than once", fnName, len(hits), what))
 	}
 	single("agent.processOneRequest", "worker→ReadRequest", func(i ssa.Instruction) bool {
-		return IsCall(i, ModPath+"/agent/utils.ReadRequest") && i.Parent().Name() == "processOneRequest"
+		return IsCall(i, ModPath+"/agent/utils.ReadRequest") && ShortName(Owner(i)) == "processOneRequest"
 	}, "utils.ReadRequest")
 	single("agent.processOneRequest", "callback→forwardRequest", func(i ssa.Instruction) bool { return IsCall(i, ModPath+"/agent.forwardRequest") }, "forwardRequest")
 	single("agent/utils.ReadRequest", "ReadRequest→callback", func(i ssa.Instruction) bool {
 		cc := CallOf(i)
-		return cc != nil && !cc.IsInvoke() && PathOf(cc.Value) == P(i.Parent(), 4)
+		return cc != nil && !cc.IsInvoke() && PathOf(cc.Value) == P(Owner(i), 4)
 	}, "the request callback")
 	single("agent.forwardRequest", "forwardRequest→handler", func(i ssa.Instruction) bool { return IsCall(i, "(net/http.Handler).ServeHTTP") }, "hostProxy.ServeHTTP")
 	// forwardRequest has no other callers, processOneRequest is only started by the poller
@@ -283,27 +283,40 @@ func checkLRUConfined(c *Ctx, p *Prog, rule string, newc ssa.Instruction) {
 	cache := newc.(ssa.Value)
 	// ownership of the cache
 	bad := ""
-	for _, r := range Refs(cache) {
-		switch x := r.(type) {
-		case *ssa.Call:
-			n := CalleeName(x.Common())
-			if (n == lruGet || n == lruAdd || n == "(*github.com/golang/groupcache/lru.Cache).Len" || n == "(*github.com/golang/groupcache/lru.Cache).Remove") && x.Call.Args[0] == cache {
-				ok := true
-				for _, a := range x.Call.Args[1:] {
-					if a == cache {
-						ok = false
+	var use func(cache ssa.Value, depth int)
+	use = func(cache ssa.Value, depth int) {
+		for _, r := range Refs(cache) {
+			switch x := r.(type) {
+			case *ssa.Call:
+				n := CalleeName(x.Common())
+				if h := syncHelperCallee(x); h != nil && depth < 3 {
+					// handed to a new helper that runs synchronously on the polling goroutine: follow it there
+					for k, a := range x.Call.Args {
+						if a == cache && k < len(h.Params) {
+							use(h.Params[k], depth+1)
+						}
 					}
-				}
-				if ok {
 					continue
 				}
+				if (n == lruGet || n == lruAdd || n == "(*github.com/golang/groupcache/lru.Cache).Len" || n == "(*github.com/golang/groupcache/lru.Cache).Remove") && x.Call.Args[0] == cache {
+					ok := true
+					for _, a := range x.Call.Args[1:] {
+						if a == cache {
+							ok = false
+						}
+					}
+					if ok {
+						continue
+					}
+				}
+				bad = "passed to " + n
+			case *ssa.DebugRef:
+			default:
+				bad = fmt.Sprintf("used by %T at %s (captured, stored or handed to another goroutine)", r, p.Pos(r.Pos()))
 			}
-			bad = "passed to " + n
-		case *ssa.DebugRef:
-		default:
-			bad = fmt.Sprintf("used by %T at %s (captured, stored or handed to another goroutine)", r, p.Pos(r.Pos()))
 		}
 	}
+	use(cache, 0)
 	if _, isCall := cache.(*ssa.Call); !isCall {
 		bad = "not a local result of lru.New"
 	}
